@@ -180,8 +180,25 @@ def run(ctx):
         R.note("PROTOCOL_VERSION is %r, pinned manifest is for %r: constants not compared (a bumped version may change them)" % (pv, pinned["protocol_version"]))
         R.ok(1)
     else:
+        def _moved(k, v):
+            """a pinned integer whose *name* is gone but whose value is still a compile-time constant of the same module - as a
+            renamed scalar, or as a field of a constant aggregate (`const PRAGUE: Heights = Heights { mainnet: .., signet: .. }`)"""
+            if not isinstance(v, int) or isinstance(v, bool) or not k.startswith("const "):
+                return False
+            mod = k.split(" ", 1)[1].rsplit("::", 1)[0] + "::"
+            for c_ in F.j["consts"]:
+                if not c_["name"].startswith(mod) or c_.get("kind") != "const" or ("const " + c_["name"]) in pinned["constants"]:
+                    continue
+                if c_.get("v") == v and "v" in c_:
+                    return True
+                hx = (c_.get("indirect") or {}).get("hex")
+                if hx and len(hx) % 16 == 0:
+                    words = [int.from_bytes(bytes.fromhex(hx[i:i + 16]), "little") for i in range(0, len(hx), 16)]
+                    if v in words:
+                        return True
+            return False
         for k, v in sorted(pinned["constants"].items()):
-            R.ob(man.get(k) == v, "CONST", "consensus manifest", "CONST|" + k,
+            R.ob(man.get(k) == v or (man.get(k) is None and _moved(k, v)), "CONST", "consensus manifest", "CONST|" + k,
                  "consensus constant %s is %r; protocol version %s pins %r — two builds reporting the same version would disagree" % (k, man.get(k), pv, v),
                  sample={"rule": "CONST", "name": k.split("::")[-1], "value": v} if k.endswith(("GAS_PER_BYTE", "PROTOCOL_VERSION", "bytecode")) else None)
         R.floor("pinned_constants", len(pinned["constants"]), 30)
